@@ -26,7 +26,14 @@ func oracleC08(j *Job, sc Scn, x *Exec, res *XferRes, src, dst fsmodel.Tree, r *
 		v = append(v, Viol{"overlap:" + o, fmt.Sprintf("two %s calls in flight on the same stream end at once", o)})
 	}
 	if sc.Fault.Kind != "" {
-		// a failing user callback: the outcome is C04's subject; the stream discipline holds on the error paths too
+		// a failing user callback or source read: what each call returns is C04's subject; the stream discipline holds on
+		// the error paths too, and one thing about the outcome does not depend on the schedule either: a receive that
+		// reports success has produced the source view
+		if res.RecvErr == "" && res.DestErr == "" && !res.Hang {
+			if d := fsmodel.Diff(src, res.Dest, destMask(dst)); len(d) > 0 {
+				v = append(v, Viol{"outcome-differs:success-with-other-content", fmt.Sprintf("under this schedule Receive returned nil after the injected %s fault but the destination differs from the source view: %s", sc.Fault.Kind, strings.Join(head(d, 4), " | "))})
+			}
+		}
 		return v
 	}
 	if res.SendErr != "" || res.RecvErr != "" {
@@ -180,6 +187,14 @@ func driveC08(p *Pool, r *evid.Run) {
 				for _, kind := range []string{"notify", "hasher"} {
 					flt = append(flt, Scn{Kind: "xfer", Src: "small", Dst: "small-dirty", Cap: cp, Policy: pol, Notify: true, SelectAlts: true, Fault: Fault{Kind: kind, K: k}})
 				}
+			}
+		}
+	}
+	// ... and every requested multi-chunk file fails to read after 0, 1 and 40000 bytes
+	for _, pol := range []string{"run", "recv", "send"} {
+		for k := 0; k < 6; k++ {
+			for _, j := range []int{0, 1, 40000} {
+				flt = append(flt, Scn{Kind: "xfer", Src: "mid", Dst: "empty", Cap: 64, Policy: pol, Notify: true, SelectAlts: true, Fault: Fault{Kind: "read", K: k, J: j}})
 			}
 		}
 	}
